@@ -15,13 +15,13 @@
        thread_stream_get_tid, is_thread_stream and the loaders load_cpus, load_appid, load_rank, thread_load_metadata
        are the functions unit meta translates; their meaning on the claims
        is C15_stream_claims_from_source (only thread streams have claims, so is_thread_stream = 1 here);
-     - find_loom, loom_init_begin (the '/' test; names shorter than PATH_MAX), proc_init_begin, thread_init_begin,
-       the accessors proc_get_pid / proc_set_loom / thread_get_tid / thread_set_proc, HASH_FIND_INT / HASH_ADD_INT on
+     - the accessors proc_get_pid / proc_set_loom / thread_get_tid / thread_set_proc, HASH_FIND_INT / HASH_ADD_INT on
        loom->procs and proc->threads, is_init (0 while the system is built); malloc; DL_APPEND; nlooms / nprocs /
        nthreads (functions of the tables, not stored).
    Definitions only; proofs in Proofs/MetaBuildGenProofs.v. *)
 From Coq Require Import ZArith List Bool.
 From OV Require Import Base.CInt Emu.MetaDefs.
+From OV Require Rt.MarkJsonDefs.
 Import ListNotations.
 Local Open Scope Z_scope.
 
@@ -51,6 +51,7 @@ Definition b0 : bstate := mkB st0 [] ([], 0) ([], 0, 0) [] [].
 
 Definition E_FAIL := 20%nat.
 Definition E_TRAP := 99%nat.
+Definition E_DIE := 21%nat.
 Inductive rres (A : Type) : Type := ROk (a : A) | RErr (e : nat).
 Arguments ROk {A} a.
 Arguments RErr {A} e.
@@ -89,17 +90,47 @@ Definition thread_stream_get_tid_c (s : ptr_stream) : Z := if s_tid s <=? 0 then
 Definition is_thread_stream (s : ptr_stream) : M Z := ret 1.
 
 (* looms *)
-Definition find_loom (sys : ptr_sys) (id : ptr_str) : M ptr_loom :=
-  fun b => match id with
-           | Some n => ROk (if in_dec name_dec n (st_looms (b_st b)) then Some (LTab n) else None, b)
-           | None => RErr E_TRAP
-           end.
+(* find_loom is generated: the walk over the DL list sys->looms (insertion order) with an early return of the element,
+   loom->id, strcmp = the sign of the lexicographic comparison of the bytes *)
+Fixpoint str_cmp (a b : list Z) : Z :=
+  match a, b with
+  | [], [] => 0
+  | [], _ :: _ => -1
+  | _ :: _, [] => 1
+  | x :: a', y :: b' => if x <? y then -1 else if y <? x then 1 else str_cmp a' b'
+  end.
+Definition strcmp_c (a b : ptr_str) : Z := match a, b with Some x, Some y => str_cmp x y | _, _ => 0 end.
+Definition rd_loom_id (l : ptr_loom) : M ptr_str :=
+  fun b => match l with Some h => ROk (Some (loom_key b h), b) | None => RErr E_TRAP end.
+Fixpoint dl_find_names (l : list name) (p : ptr_loom -> M bool) : M ptr_loom :=
+  match l with
+  | [] => ret None
+  | n :: r => bind (p (Some (LTab n))) (fun c => if c then ret (Some (LTab n)) else dl_find_names r p)
+  end.
+Definition dl_find_looms (sys : ptr_sys) (p : ptr_loom -> M bool) : M ptr_loom :=
+  fun b => dl_find_names (st_looms (b_st b)) p b.
 Definition calloc_loom : M ptr_loom := ret (Some LPend).
-Definition loom_init_begin (l : ptr_loom) (n : ptr_str) : M Z :=
-  fun b => match l, n with
-           | Some LPend, Some x => if valid_name x then ROk (0, with_ploom b x) else ROk (-1, b)
+(* loom_init_begin is generated: memset, strchr(name, '/'), snprintf(loom->name, PATH_MAX, "%s", name) as its returned
+   length (the stored bytes are cut at PATH_MAX - 1), loom->id = loom->name (the pending loom's name IS its id);
+   hostname, rank_min and the virtual CPU are not part of the merge *)
+Definition on_ploom (l : ptr_loom) (f : bstate -> bstate) : M unit :=
+  fun b => match l with Some LPend => ROk (tt, f b) | _ => RErr E_TRAP end.
+Definition memset_loom (l : ptr_loom) : M unit := on_ploom l (fun b => with_ploom b []).
+Definition strchr_c (s : ptr_str) (c : Z) : ptr_str :=
+  match s with Some x => if existsb (Z.eqb c) x then Some x else None | None => None end.
+Definition snprintf_s_loom_name (l : ptr_loom) (size : Z) (s : ptr_str) : M Z :=
+  fun b => match l, s with
+           | Some LPend, Some x => ROk (Z.of_nat (length x), with_ploom b (firstn (Z.to_nat (size - 1)) x))
            | _, _ => RErr E_TRAP
            end.
+Definition set_hostname_loom (l : ptr_loom) : M unit := on_ploom l (fun b => b).
+Definition rd_loom_name (l : ptr_loom) : M ptr_str :=
+  fun b => match l with Some LPend => ROk (Some (b_ploom b), b) | _ => RErr E_TRAP end.
+Definition set_loom_id (l : ptr_loom) (v : ptr_str) : M unit :=
+  fun b => match l, v with Some LPend, Some x => ROk (tt, with_ploom b x) | _, _ => RErr E_TRAP end.
+Definition set_loom_rank_min (l : ptr_loom) (v : Z) : M unit := on_ploom l (fun b => b).
+Definition cpu_init_begin_vcpu (l : ptr_loom) (i p v : Z) : M unit := on_ploom l (fun b => b).
+Definition cpu_set_loom_vcpu (l l2 : ptr_loom) : M unit := on_ploom l (fun b => b).
 Definition dl_append_looms (sys : ptr_sys) (l : ptr_loom) : M unit :=
   fun b => match l with
            | Some LPend => ROk (tt, with_st b (set_looms (b_st b) (st_looms (b_st b) ++ [b_ploom b])))
@@ -131,8 +162,20 @@ Definition hash_find_proc (l : ptr_loom) (pid : Z) : M ptr_proc :=
            | None => RErr E_TRAP
            end.
 Definition calloc_proc : M ptr_proc := ret (Some PPend).
-Definition proc_init_begin (p : ptr_proc) (pid : Z) : M Z :=
-  fun b => match p with Some PPend => ROk (0, with_pproc b (fst (b_pproc b), pid)) | _ => RErr E_TRAP end.
+(* proc_init_begin is generated: memset, the field stores, snprintf(proc->id, PATH_MAX, "proc.%d", pid) as its returned length
+   (the bytes of the prefix + the decimal digits, MarkJsonDefs.render_int).  appid / rank / nranks of a new process are the
+   absence of a fact in the tables (C15_stream_claims_from_source: 0 / -1 / 0); gindex and id are not stored *)
+Definition on_pproc (p : ptr_proc) (f : bstate -> bstate) : M unit :=
+  fun b => match p with Some PPend => ROk (tt, f b) | _ => RErr E_TRAP end.
+Definition memset_proc (p : ptr_proc) : M unit := on_pproc p (fun b => with_pproc b (fst (b_pproc b), 0)).
+Definition set_proc_gindex (p : ptr_proc) (v : Z) : M unit := on_pproc p (fun b => b).
+Definition set_proc_appid (p : ptr_proc) (v : Z) : M unit := on_pproc p (fun b => b).
+Definition set_proc_rank (p : ptr_proc) (v : Z) : M unit := on_pproc p (fun b => b).
+Definition set_proc_nranks (p : ptr_proc) (v : Z) : M unit := on_pproc p (fun b => b).
+Definition set_proc_pid (p : ptr_proc) (v : Z) : M unit := on_pproc p (fun b => with_pproc b (fst (b_pproc b), v)).
+Definition dlen (prefix : list Z) (v : Z) : Z := Z.of_nat (length prefix + length (MarkJsonDefs.render_int v)).
+Definition snprintf_d_proc_id (p : ptr_proc) (size : Z) (prefix : list Z) (v : Z) : M Z :=
+  fun b => match p with Some PPend => ROk (dlen prefix v, b) | _ => RErr E_TRAP end.
 Definition proc_get_pid (p : ptr_proc) : M Z :=
   fun b => match p with Some h => ROk (snd (proc_key b h), b) | None => RErr E_TRAP end.
 (* loom->is_init is set by loom_init_end, after create_system *)
@@ -187,8 +230,15 @@ Definition hash_find_thread (p : ptr_proc) (tid : Z) : M ptr_thread :=
            | None => RErr E_TRAP
            end.
 Definition calloc_thread : M ptr_thread := ret (Some TPend).
-Definition thread_init_begin (t : ptr_thread) (tid : Z) : M Z :=
-  fun b => match t with Some TPend => ROk (0, with_pthr b (fst (b_pthr b), tid)) | _ => RErr E_TRAP end.
+(* thread_init_begin is generated *)
+Definition on_pthr (t : ptr_thread) (f : bstate -> bstate) : M unit :=
+  fun b => match t with Some TPend => ROk (tt, f b) | _ => RErr E_TRAP end.
+Definition memset_thread (t : ptr_thread) : M unit := on_pthr t (fun b => with_pthr b (fst (b_pthr b), 0)).
+Definition set_thread_state (t : ptr_thread) (v : Z) : M unit := on_pthr t (fun b => b).
+Definition set_thread_gindex (t : ptr_thread) (v : Z) : M unit := on_pthr t (fun b => b).
+Definition set_thread_tid (t : ptr_thread) (v : Z) : M unit := on_pthr t (fun b => with_pthr b (fst (b_pthr b), v)).
+Definition snprintf_d_thread_id (t : ptr_thread) (size : Z) (prefix : list Z) (v : Z) : M Z :=
+  fun b => match t with Some TPend => ROk (dlen prefix v, b) | _ => RErr E_TRAP end.
 Definition thread_load_metadata (t : ptr_thread) (s : ptr_stream) : M Z :=
   fun b => match t with Some _ => ROk (0, b) | None => RErr E_TRAP end.
 Definition thread_get_tid (t : ptr_thread) : M Z :=
@@ -207,6 +257,11 @@ Definition thread_set_proc (t : ptr_thread) (p : ptr_proc) : M unit :=
            | Some TPend, Some h => ROk (tt, with_pthr b (proc_key b h, snd (b_pthr b)))
            | _, _ => RErr E_TRAP
            end.
+
+(* create_system's `for (struct stream *s = trace->streams; s; s = s->next)`: trace->streams is the list of the streams *)
+Definition ptr_trace := list stream_meta.
+Fixpoint for_streams (l : ptr_trace) (body : ptr_stream -> M Z) : M unit :=
+  match l with [] => ret tt | s :: r => bind_ (body s) (for_streams r body) end.
 
 (* the lpt array *)
 Definition lpt_next (sys : ptr_sys) : M ptr_lpt :=
@@ -236,5 +291,21 @@ Definition set_lpt_proc (p : ptr_lpt) (q : ptr_proc) : M unit :=
   set_lpt p (fun b x => match q with Some h => Some (mkL (l_stream x) (l_loom x) (Some (proc_key b h)) (l_thread x)) | None => None end).
 Definition set_lpt_thread (p : ptr_lpt) (t : ptr_thread) : M unit :=
   set_lpt p (fun b x => match t with Some h => Some (mkL (l_stream x) (l_loom x) (l_proc x) (Some (thr_key b h))) | None => None end).
+(* system_get_lpt is generated: stream_data_get (the map stream_data_set fills; a struct stream * is compared as the
+   stream's claims: two streams with the same claims are refused by create_thread), lpt->stream *)
+Definition stream_dec : forall a b : stream_meta, {a = b} + {a <> b}.
+Proof. repeat decide equality. Defined.
+Definition stream_eqb (a b : ptr_stream) : bool := if stream_dec a b then true else false.
+Fixpoint find_data (d : list (stream_meta * nat)) (s : stream_meta) : option nat :=
+  match d with [] => None | (s', i) :: r => if stream_dec s' s then Some i else find_data r s end.
+Definition stream_data_get (s : ptr_stream) : M ptr_lpt := fun b => ROk (find_data (b_data b) s, b).
+Definition rd_lpt_stream (p : ptr_lpt) : M ptr_stream :=
+  fun b => match p with
+           | Some i => match nth_error (b_lpt b) i with
+                       | Some x => match l_stream x with Some s => ROk (s, b) | None => RErr E_TRAP end
+                       | None => RErr E_TRAP
+                       end
+           | None => RErr E_TRAP
+           end.
 Definition stream_data_set (s : ptr_stream) (p : ptr_lpt) : M unit :=
   fun b => match p with Some i => ROk (tt, with_data b (b_data b ++ [(s, i)])) | None => RErr E_TRAP end.
